@@ -63,7 +63,14 @@ async fn run_vec<T: Qcow2IoOps>(io: &T, v: &Value) -> Vec<String> {
                 }
             }
             "P" => {
-                if let Err(e) = io.fallocate(off, n * BS, 0).await {
+                // both flavours of the request: plain punch and FALLOCATE_ZERO_RANGE (same contract:
+                // the range reads as zeros, the file length stays)
+                let flags = if (k + v["ops"].as_array().unwrap().len()) % 2 == 1 {
+                    qcow2_rs::ops::Qcow2OpsFlags::FALLOCATE_ZERO_RANGE
+                } else {
+                    0
+                };
+                if let Err(e) = io.fallocate(off, n * BS, flags).await {
                     bad.push(format!("op {k} punch failed: {e:?}"));
                 }
             }
